@@ -115,8 +115,17 @@ def trees(draw):
     flags = draw(cli.flag_subsets())
     if cli.documented_options(flags) is None or len(flags) > 6:
         flags = flags[:2] if cli.documented_options(flags[:2]) is not None else []
-    mode = 'in-place' if draw(st.integers(0, 9)) < 8 else 'output'
-    return {'entries': entries, 'args': args, 'flags': flags, 'mode': mode}
+    mode = 'in-place' if draw(st.integers(0, 9)) < 7 else 'output'
+    out_target = None
+    if mode == 'output' and draw(st.integers(0, 9)) < 8:
+        # the documented single-module form; the output path is new, an existing other file, or the input itself
+        file_cands = [e[0] for e in entries if e[1] == 'file' and e[0].startswith('work')]
+        if file_cands:
+            args = [draw(st.sampled_from(file_cands))]
+            out_target = draw(st.sampled_from(['new', 'new', 'existing', 'same']))
+            if out_target == 'existing':
+                out_target = 'existing:' + draw(st.sampled_from([e[0] for e in entries if e[1] == 'file']))
+    return {'entries': entries, 'args': args, 'flags': flags, 'mode': mode, 'out_target': out_target}
 
 
 def build(root, entries):
@@ -188,6 +197,12 @@ def oracle(case):
         pre = snapshot(root)
         targets = expected_targets(root, case['args'])
         out_path = os.path.join(root, 'result_output.py')
+        ot = case.get('out_target')
+        if ot == 'same':
+            out_path = args[0]
+        elif ot and ot.startswith('existing:'):
+            out_path = os.path.join(root, ot.split(':', 1)[1])
+        out_rel = os.path.relpath(os.path.realpath(out_path), root) if os.path.exists(out_path) else os.path.relpath(out_path, root)
         argv = list(args) + list(case['flags'])
         if case['mode'] == 'in-place':
             argv.append('--in-place')
@@ -237,7 +252,7 @@ def oracle(case):
             if case['mode'] == 'in-place':
                 state[key] = new
             else:
-                state['result_output.py'] = new
+                state[out_rel] = new
         if fault_at is not None and fault_at != len(visited) - 1:
             return ('continued-after-a-fault',), info
         if fault_at is None and sorted(visited) != sorted(targets):
